@@ -88,6 +88,31 @@ func refSelfTest() []string {
 		// box-sizing and percentages against the containing block's width
 		{`<body id=body><div id=a style="width:120px;padding-left:11px;box-sizing:border-box"><div id=b style="width:50%;margin-left:10%;margin-top:10%;padding-left:3px;height:5px;box-sizing:border-box"></div>a</div></body>`,
 			[]want{{"a", 0, 10.9, 120, 15}, {"b", 21.9, 10.9, 54.5, 5}}},
+		// §10.7: the tentative height is cut to max-height, then raised to min-height (min-height wins)
+		{`<body id=body><div id=a style="min-height:40px">a</div><div id=z>z</div></body>`,
+			[]want{{"a", 0, 0, 200, 40}, {"z", 0, 40, 200, 10}}},
+		{`<body id=body><div id=a style="max-height:8px">a</div><div id=z>z</div></body>`,
+			[]want{{"a", 0, 0, 200, 8}, {"z", 0, 8, 200, 10}}},
+		{`<body id=body><div id=a style="height:15px;min-height:12px;max-height:8px">a</div><div id=z>z</div></body>`,
+			[]want{{"a", 0, 0, 200, 12}, {"z", 0, 12, 200, 10}}},
+		// box-sizing: border-box: min-height is the height of the border box; the VERTICAL padding
+		// and border are what is taken off it (padding: 5px 30px; border: 1px)
+		{`<body id=body><div id=a style="padding-top:5px;padding-bottom:5px;border-top:1px solid;border-bottom:1px solid;min-height:40px;padding-left:30px;padding-right:30px;border-left:1px solid;border-right:1px solid;box-sizing:border-box">a</div><div id=z>z</div></body>`,
+			[]want{{"a", 0, 0, 200, 40}, {"z", 0, 40, 200, 10}}},
+		// padding-box: the border is added to the value; a value below the padding: content height 0
+		{`<body id=body><div id=a style="padding-top:5px;padding-bottom:5px;border-top:1px solid;border-bottom:1px solid;height:15px;max-height:30px;box-sizing:padding-box">a</div><div id=z>z</div></body>`,
+			[]want{{"a", 0, 0, 200, 17}, {"z", 0, 17, 200, 10}}},
+		{`<body id=body><div id=a style="padding-top:20px;padding-bottom:2px;border-top:3px solid;max-height:8px;box-sizing:border-box">a</div><div id=z>z</div></body>`,
+			[]want{{"a", 0, 0, 200, 25}, {"z", 0, 25, 200, 10}}},
+		// percentages of a height that is not specified explicitly: min-height 0, max-height none;
+		// of a specified height: of that height
+		{`<body id=body><div id=a style="min-height:50%;max-height:50%">a</div><div id=z>z</div></body>`,
+			[]want{{"a", 0, 0, 200, 10}, {"z", 0, 10, 200, 10}}},
+		{`<body id=body><div id=p style="height:60px"><div id=a style="min-height:50%">a</div></div><div id=z>z</div></body>`,
+			[]want{{"a", 0, 0, 200, 30}, {"z", 0, 60, 200, 10}}},
+		// a box with a non-zero min-height is not collapsed through
+		{`<body id=body><div id=a style="min-height:12px;margin-bottom:10px"></div><div id=z>z</div></body>`,
+			[]want{{"a", 0, 0, 200, 12}, {"z", 0, 22, 200, 10}}},
 	}
 	var errs []string
 	for _, c := range cases {
